@@ -66,10 +66,10 @@ func cmdList(args []string) {
 }
 
 type oblResult struct {
-	VC  *FuncVC
-	O   *Obligation
-	R   SolveResult
-	OK  bool
+	VC *FuncVC
+	O  *Obligation
+	R  SolveResult
+	OK bool
 }
 
 // solveAll discharges the obligations of the given VCs in parallel.
@@ -191,4 +191,3 @@ func cmdVC(args []string) {
 	}
 	fmt.Printf("%d obligations, %d failed, %.1fs\n", len(res), bad, time.Since(t0).Seconds())
 }
-
